@@ -183,8 +183,10 @@ def main(argv):
           extra=jsonable(total.extra), repo=REPO),
       assumptions=list(getattr(mod, 'ASSUMPTIONS', [])),
       wall_s=round(wall, 2), violations=len(violations))
-  os.makedirs(os.path.join(VERIF, 'evidence'), exist_ok=True)
-  with open(os.path.join(VERIF, 'evidence', prop + '.json'), 'w') as f:
+  # evidence/ describes /repo itself; runs against a scratch copy (mutants, old commits) go elsewhere
+  evdir = 'evidence' if os.path.abspath(REPO) == '/repo' else 'evidence_scratch'
+  os.makedirs(os.path.join(VERIF, evdir), exist_ok=True)
+  with open(os.path.join(VERIF, evdir, prop + '.json'), 'w') as f:
     json.dump(ev, f, indent=1, sort_keys=True)
 
   print('%s %s seed=%d: %d cases, %d distinct non-trivial, %d shards, %.1fs' % (
